@@ -21,23 +21,6 @@ def ptOf (v : GV) : Pt := ⟨v.x, v.y⟩
 /-- the model graph as a list of point pairs -/
 def graphPts (s : Scene) : List (Pt × Pt) := s.graph.map fun e => (ptOf e.1, ptOf e.2)
 
-/-- one coordinate of a closed segment point that lies in an open interval: there is a point of the OPEN
-    segment in the same open interval -/
-theorem open_point_near {a b t r0 r1 : Rat} (hab : a < b) (h0 : 0 ≤ t) (h1 : t ≤ 1)
-    (hr0 : r0 < a + t * (b - a)) (hr1 : a + t * (b - a) < r1) :
-    ∃ m, a < m ∧ m < b ∧ r0 < m ∧ m < r1 := by
-  have hd : 0 ≤ t * (b - a) := mul_nonneg h0 (by linarith)
-  have hd' : 0 ≤ (1 - t) * (b - a) := mul_nonneg (by linarith) (by linarith)
-  have hx0 : a ≤ a + t * (b - a) := by linarith
-  have hx1 : a + t * (b - a) ≤ b := by nlinarith
-  have l1 := le_max_left a r0
-  have l2 := le_max_right a r0
-  have u1 := min_le_left b r1
-  have u2 := min_le_right b r1
-  have hlt : max a r0 < min b r1 := by
-    apply max_lt <;> apply lt_min <;> linarith
-  exact ⟨(max a r0 + min b r1) / 2, by linarith, by linarith, by linarith, by linarith⟩
-
 /-- **Every edge of the model graph is spec-unblocked** in the sense of C03 (closed segment, all routing
     boxes, nothing excluded), for scenes whose boxes have positive size and whose connector end points are
     in free space. -/
